@@ -47,6 +47,7 @@ type Ctx struct {
 
 	violations []violation
 	replaysWritten int
+	artifacts int
 	vioSeen    map[string]int
 	knownHits  map[string]int
 	knownWhat  map[string]string
@@ -198,6 +199,25 @@ func (c *Ctx) Violation(class, caseID, what string, detail any) {
 	os.WriteFile(path, b, 0o644)
 	c.replaysWritten++
 	c.violations = append(c.violations, violation{What: what, Replay: path})
+}
+
+// Artifact stores a failing input next to the replay files and returns its path.
+func (c *Ctx) Artifact(name string, data []byte) string {
+	dir := filepath.Join(c.Dir, "replays")
+	if o := os.Getenv("VERIF_OUT"); o != "" {
+		dir = filepath.Join(o, "replays")
+	}
+	os.MkdirAll(dir, 0o755)
+	c.mu.Lock()
+	n := c.artifacts
+	c.artifacts++
+	c.mu.Unlock()
+	if n >= 40 {
+		return ""
+	}
+	path := filepath.Join(dir, c.Prop+"-input-"+name)
+	os.WriteFile(path, data, 0o644)
+	return path
 }
 
 // Fail is the single reporting entry point for a failed oracle: if the failure
